@@ -1,18 +1,12 @@
 import BqVerif.Model.QasmSpec
-/-! # Formal parameters: textual substitution of non-negative values = binding
+/-! # Formal parameters: splicing `(value)` into the text = binding in the tree
 
 `replace_param_ids` + `replace_param_indices` + `eval_exp_recurse` splice the actual values
-into the Python text.  For values that print without a sign this is the same as parsing the
-body expression once and binding the formals in the tree (`PE.evalEnv`). -/
+into the Python text as parenthesised atoms `(v)`.  That is the same as parsing the body
+expression once and binding the formals in the tree (`PE.evalEnvSpec`) — for every value. -/
 namespace BqVerif.Qasm
 
 variable {V : Type}
-
-def tokBind (σ : Env V) : ETok V → ETok V
-  | .name s => match σ s with
-    | some v => .val v
-    | none => .name s
-  | t => t
 
 def PE.bindEnv (σ : Env V) : PE V → PE V
   | .lit s => .lit s
@@ -25,221 +19,430 @@ def PE.bindEnv (σ : Env V) : PE V → PE V
   | .pow a b => .pow (a.bindEnv σ) (b.bindEnv σ)
   | .call f e => .call f (e.bindEnv σ)
 
-/-- evaluation of a tree whose free names are bound by `σ` -/
-def PE.evalEnv (A : Arith V) (σ : Env V) : PE V → Option V
-  | .lit s => (parsePyLit s).map fun (m, e) => A.ofLit m e
-  | .val v => some v
-  | .name s => match σ s with
-    | some v => some v
-    | none => if s = "pi" then some A.pi else none
-  | .neg e => (e.evalEnv A σ).map A.neg
-  | .bin op l r =>
-    match l.evalEnv A σ, r.evalEnv A σ with
-    | some a, some b =>
-      some (match op with
-        | .add => A.add a b | .sub => A.sub a b | .mul => A.mul a b | .div => A.div a b)
-    | _, _ => none
-  | .pow a b =>
-    match a.evalEnv A σ, b.evalEnv A σ with
-    | some x, some y => some (A.pow x y)
-    | _, _ => none
-  | .call f e =>
-    match f with
-    | .exp | .sqrt => none
-    | _ => (e.evalEnv A σ).map (A.fn f)
-
 /-- **substitution lemma**: evaluating the tree with the values put in = evaluating the tree
 under the binding -/
 theorem eval_bindEnv (A : Arith V) (σ : Env V) (e : PE V) :
-    (e.bindEnv σ).eval A = e.evalEnv A σ := by
+    (e.bindEnv σ).eval A = e.evalEnvSpec A σ := by
   induction e with
   | lit s => rfl
   | val v => rfl
   | name s =>
-    simp only [PE.bindEnv, PE.evalEnv]
+    simp only [PE.bindEnv, PE.evalEnvSpec]
     cases σ s <;> simp [PE.eval]
-  | neg e ih => simp [PE.bindEnv, PE.evalEnv, PE.eval, ih]
+  | neg e ih => simp [PE.bindEnv, PE.evalEnvSpec, PE.eval, ih]
   | bin op l r ihl ihr =>
-    simp only [PE.bindEnv, PE.evalEnv, PE.eval, ihl, ihr]
-    cases PE.evalEnv A σ l <;> cases PE.evalEnv A σ r <;> rfl
+    simp only [PE.bindEnv, PE.evalEnvSpec, PE.eval, ihl, ihr]
+    cases PE.evalEnvSpec A σ l <;> cases PE.evalEnvSpec A σ r <;> rfl
   | pow a b iha ihb =>
-    simp only [PE.bindEnv, PE.evalEnv, PE.eval, iha, ihb]
-    cases PE.evalEnv A σ a <;> cases PE.evalEnv A σ b <;> rfl
-  | call f e ih => cases f <;> simp [PE.bindEnv, PE.evalEnv, PE.eval, ih]
+    simp only [PE.bindEnv, PE.evalEnvSpec, PE.eval, iha, ihb]
+    cases PE.evalEnvSpec A σ a <;> cases PE.evalEnvSpec A σ b <;> rfl
+  | call f e ih => simp [PE.bindEnv, PE.evalEnvSpec, PE.eval, ih]
 
-theorem tokBind_eq_minus (σ : Env V) (t : ETok V) (h : tokBind σ t = .minus) : t = .minus := by
-  cases t <;> simp_all [tokBind]
-  rename_i s
-  cases hσ : σ s <;> simp_all
+theorem evalEnvSpec_noEnv (A : Arith V) (e : PE V) : e.evalEnvSpec A noEnv = e.eval A := by
+  induction e with
+  | lit s => rfl
+  | val v => rfl
+  | name s => simp [PE.evalEnvSpec, PE.eval, noEnv]
+  | neg e ih => simp [PE.evalEnvSpec, PE.eval, ih]
+  | bin op l r ihl ihr =>
+    simp only [PE.evalEnvSpec, PE.eval, ihl, ihr]
+    cases PE.eval A l <;> cases PE.eval A r <;> rfl
+  | pow a b iha ihb =>
+    simp only [PE.evalEnvSpec, PE.eval, iha, ihb]
+    cases PE.eval A a <;> cases PE.eval A b <;> rfl
+  | call f e ih => simp [PE.evalEnvSpec, PE.eval, ih]
 
-theorem pyFactor_succ_of_ne_minus (f : Nat) (t : ETok V) (ts : List (ETok V)) (h : t ≠ .minus) :
-    pyFactor (f + 1) (t :: ts) = pyPower f (t :: ts) := by
-  unfold pyFactor
-  split
-  · rename_i heq
-    simp only [List.cons.injEq] at heq
-    exact absurd heq.1 h
-  · rfl
+/-- the spliced text: every bound name becomes the three tokens `(` `v` `)` -/
+def tsubst (σ : Env V) : List (ETok V) → List (ETok V)
+  | [] => []
+  | .name s :: ts =>
+    (match σ s with
+     | some v => .lp :: .val v :: .rp :: tsubst σ ts
+     | none => .name s :: tsubst σ ts)
+  | .lit s :: ts => .lit s :: tsubst σ ts
+  | .val v :: ts => .val v :: tsubst σ ts
+  | .fn g :: ts => .fn g :: tsubst σ ts
+  | .lp :: ts => .lp :: tsubst σ ts
+  | .rp :: ts => .rp :: tsubst σ ts
+  | .plus :: ts => .plus :: tsubst σ ts
+  | .minus :: ts => .minus :: tsubst σ ts
+  | .star :: ts => .star :: tsubst σ ts
+  | .slash :: ts => .slash :: tsubst σ ts
+  | .pow :: ts => .pow :: tsubst σ ts
 
-/-- the Python-level parser commutes with replacing names by values, token for token -/
-theorem py_map (σ : Env V) : ∀ f,
-    (∀ ts, pySum f (ts.map (tokBind σ)) =
-      (pySum f ts).map fun p => (p.1.bindEnv σ, p.2.map (tokBind σ))) ∧
-    (∀ acc ts, pySumLoop f (acc.bindEnv σ) (ts.map (tokBind σ)) =
-      (pySumLoop f acc ts).map fun p => (p.1.bindEnv σ, p.2.map (tokBind σ))) ∧
-    (∀ ts, pyTerm f (ts.map (tokBind σ)) =
-      (pyTerm f ts).map fun p => (p.1.bindEnv σ, p.2.map (tokBind σ))) ∧
-    (∀ acc ts, pyTermLoop f (acc.bindEnv σ) (ts.map (tokBind σ)) =
-      (pyTermLoop f acc ts).map fun p => (p.1.bindEnv σ, p.2.map (tokBind σ))) ∧
-    (∀ ts, pyFactor f (ts.map (tokBind σ)) =
-      (pyFactor f ts).map fun p => (p.1.bindEnv σ, p.2.map (tokBind σ))) ∧
-    (∀ ts, pyPower f (ts.map (tokBind σ)) =
-      (pyPower f ts).map fun p => (p.1.bindEnv σ, p.2.map (tokBind σ))) ∧
-    (∀ ts, pyAtom f (ts.map (tokBind σ)) =
-      (pyAtom f ts).map fun p => (p.1.bindEnv σ, p.2.map (tokBind σ))) := by
+theorem tsubst_append (σ : Env V) (a b : List (ETok V)) :
+    tsubst σ (a ++ b) = tsubst σ a ++ tsubst σ b := by
+  induction a with
+  | nil => rfl
+  | cons t ts ih =>
+    cases t <;> simp [tsubst, ih]
+    rename_i s
+    cases σ s <;> simp
+
+theorem tsubst_length_ge (σ : Env V) (ts : List (ETok V)) :
+    ts.length ≤ (tsubst σ ts).length := by
+  induction ts with
+  | nil => simp [tsubst]
+  | cons t ts ih =>
+    cases t <;> simp [tsubst] <;> try omega
+    rename_i s
+    cases σ s <;> simp <;> omega
+
+theorem tsubst_eq_of_length (σ : Env V) (ts : List (ETok V))
+    (h : (tsubst σ ts).length = ts.length) : tsubst σ ts = ts := by
+  induction ts with
+  | nil => rfl
+  | cons t ts ih =>
+    have hge := tsubst_length_ge σ ts
+    cases t with
+    | name s =>
+      simp only [tsubst] at h ⊢
+      cases hs : σ s with
+      | some v => simp [hs] at h; omega
+      | none => simp [hs] at h ⊢; exact ih h
+    | _ => simp only [tsubst, List.length_cons, Nat.add_right_cancel_iff] at h ⊢
+           rw [ih h]
+
+/-! ## fuel monotonicity -/
+
+theorem py_mono : ∀ f,
+    (∀ (ts : List (ETok V)) r, pySum f ts = some r → pySum (f + 1) ts = some r) ∧
+    (∀ acc (ts : List (ETok V)) r, pySumLoop f acc ts = some r →
+      pySumLoop (f + 1) acc ts = some r) ∧
+    (∀ (ts : List (ETok V)) r, pyTerm f ts = some r → pyTerm (f + 1) ts = some r) ∧
+    (∀ acc (ts : List (ETok V)) r, pyTermLoop f acc ts = some r →
+      pyTermLoop (f + 1) acc ts = some r) ∧
+    (∀ (ts : List (ETok V)) r, pyFactor f ts = some r → pyFactor (f + 1) ts = some r) ∧
+    (∀ (ts : List (ETok V)) r, pyPower f ts = some r → pyPower (f + 1) ts = some r) ∧
+    (∀ (ts : List (ETok V)) r, pyAtom f ts = some r → pyAtom (f + 1) ts = some r) := by
   intro f
   induction f with
   | zero => simp [pySum, pySumLoop, pyTerm, pyTermLoop, pyFactor, pyPower, pyAtom]
   | succ f ih =>
     obtain ⟨ihS, ihSL, ihT, ihTL, ihF, ihP, ihA⟩ := ih
     refine ⟨?_, ?_, ?_, ?_, ?_, ?_, ?_⟩
-    · intro ts
-      simp only [pySum, ihT]
-      cases pyTerm f ts with
-      | none => rfl
-      | some p => simp [ihSL]
-    · intro acc ts
+    · intro ts r h
+      simp only [pySum, Option.bind_eq_some_iff] at h
+      obtain ⟨p, hp, hl⟩ := h
+      simp only [pySum, ihT ts p hp, Option.bind_some, ihSL _ _ r hl]
+    · intro acc ts r h
+      unfold pySumLoop at h ⊢
+      split at h
+      · simp only [Option.bind_eq_some_iff] at h
+        obtain ⟨p, hp, hl⟩ := h
+        simp only [ihT _ p hp, Option.bind_some, ihSL _ _ r hl]
+      · simp only [Option.bind_eq_some_iff] at h
+        obtain ⟨p, hp, hl⟩ := h
+        simp only [ihT _ p hp, Option.bind_some, ihSL _ _ r hl]
+      · exact h
+    · intro ts r h
+      simp only [pyTerm, Option.bind_eq_some_iff] at h
+      obtain ⟨p, hp, hl⟩ := h
+      simp only [pyTerm, ihF ts p hp, Option.bind_some, ihTL _ _ r hl]
+    · intro acc ts r h
+      unfold pyTermLoop at h ⊢
+      split at h
+      · simp only [Option.bind_eq_some_iff] at h
+        obtain ⟨p, hp, hl⟩ := h
+        simp only [ihF _ p hp, Option.bind_some, ihTL _ _ r hl]
+      · simp only [Option.bind_eq_some_iff] at h
+        obtain ⟨p, hp, hl⟩ := h
+        simp only [ihF _ p hp, Option.bind_some, ihTL _ _ r hl]
+      · exact h
+    · intro ts r h
+      unfold pyFactor at h ⊢
+      split at h
+      · simp only [Option.bind_eq_some_iff] at h
+        obtain ⟨p, hp, hl⟩ := h
+        simp only [ihF _ p hp, Option.bind_some, hl]
+      · exact ihP ts r h
+    · intro ts r h
+      simp only [pyPower, Option.bind_eq_some_iff] at h
+      obtain ⟨p, hp, hm⟩ := h
+      simp only [pyPower, ihA ts p hp, Option.bind_some]
+      split at hm
+      · rename_i r' hr'
+        simp only [Option.bind_eq_some_iff] at hm
+        obtain ⟨q, hq, hqr⟩ := hm
+        simp only [hr', ihF _ q hq, Option.bind_some, hqr]
+      · first
+          | exact hm
+          | (rename_i hne
+             split
+             · rename_i r' hr'
+               exact absurd hr' (hne r')
+             · exact hm)
+    · intro ts r h
+      unfold pyAtom at h ⊢
+      split at h
+      · simp only [Option.bind_eq_some_iff] at h
+        obtain ⟨p, hp, hm⟩ := h
+        simp only [ihS _ p hp, Option.bind_some, hm]
+      · simp only [Option.bind_eq_some_iff] at h
+        obtain ⟨p, hp, hm⟩ := h
+        simp only [ihS _ p hp, Option.bind_some, hm]
+      · exact h
+      · exact h
+      · exact h
+      · exact h
+
+theorem pySum_mono (f k : Nat) (ts : List (ETok V)) (r : PE V × List (ETok V))
+    (h : pySum f ts = some r) : pySum (f + k) ts = some r := by
+  induction k with
+  | zero => exact h
+  | succ k ih => exact (py_mono (f + k)).1 ts r ih
+
+/-! ## the parser on the spliced text -/
+
+/-- a parenthesised value is an atom -/
+theorem pySum_val (k : Nat) (v : V) (T : List (ETok V)) :
+    pySum (k + 5) (.val v :: .rp :: T) = some (.val v, .rp :: T) := by
+  simp [pySum, pyTerm, pyFactor, pyPower, pyAtom, pyTermLoop, pySumLoop]
+
+/-- an operator / closing token at the head of the spliced text was there before -/
+theorem tsubst_head (σ : Env V) (ts : List (ETok V)) (t : ETok V)
+    (ht : t = .plus ∨ t = .minus ∨ t = .star ∨ t = .slash ∨ t = .pow ∨ t = .rp)
+    (r : List (ETok V)) (h : tsubst σ ts = t :: r) : ∃ ts', ts = t :: ts' ∧ r = tsubst σ ts' := by
+  cases ts with
+  | nil => simp [tsubst] at h
+  | cons a ts' =>
+    cases a with
+    | name s =>
+      simp only [tsubst] at h
+      cases hs : σ s <;> simp only [hs, List.cons.injEq] at h <;>
+        rcases ht with rfl | rfl | rfl | rfl | rfl | rfl <;> simp at h
+    | _ =>
+      simp only [tsubst, List.cons.injEq] at h
+      obtain ⟨rfl, rfl⟩ := h
+      exact ⟨ts', rfl, rfl⟩
+
+theorem pyFactor_minus (k : Nat) (ts : List (ETok V)) :
+    pyFactor (k + 1) (.minus :: ts) = (pyFactor k ts).bind fun p => some (.neg p.1, p.2) := by
+  rw [pyFactor]
+
+/-- result of a parse step, carried through the splicing -/
+def sres (σ : Env V) (r : PE V × List (ETok V)) : PE V × List (ETok V) :=
+  (r.1.bindEnv σ, tsubst σ r.2)
+
+set_option maxHeartbeats 800000 in
+theorem py_shift (σ : Env V) : ∀ f,
+    (∀ (ts : List (ETok V)) r, pySum f ts = some r →
+      pySum (f + 6) (tsubst σ ts) = some (sres σ r)) ∧
+    (∀ acc (ts : List (ETok V)) r, pySumLoop f acc ts = some r →
+      pySumLoop (f + 6) (acc.bindEnv σ) (tsubst σ ts) = some (sres σ r)) ∧
+    (∀ (ts : List (ETok V)) r, pyTerm f ts = some r →
+      pyTerm (f + 6) (tsubst σ ts) = some (sres σ r)) ∧
+    (∀ acc (ts : List (ETok V)) r, pyTermLoop f acc ts = some r →
+      pyTermLoop (f + 6) (acc.bindEnv σ) (tsubst σ ts) = some (sres σ r)) ∧
+    (∀ (ts : List (ETok V)) r, pyFactor f ts = some r →
+      pyFactor (f + 6) (tsubst σ ts) = some (sres σ r)) ∧
+    (∀ (ts : List (ETok V)) r, pyPower f ts = some r →
+      pyPower (f + 6) (tsubst σ ts) = some (sres σ r)) ∧
+    (∀ (ts : List (ETok V)) r, pyAtom f ts = some r →
+      pyAtom (f + 6) (tsubst σ ts) = some (sres σ r)) := by
+  intro f
+  induction f with
+  | zero => simp [pySum, pySumLoop, pyTerm, pyTermLoop, pyFactor, pyPower, pyAtom]
+  | succ f ih =>
+    obtain ⟨ihS, ihSL, ihT, ihTL, ihF, ihP, ihA⟩ := ih
+    have hf : f + 1 + 6 = (f + 6) + 1 := by omega
+    refine ⟨?_, ?_, ?_, ?_, ?_, ?_, ?_⟩
+    · intro ts r h
+      simp only [pySum, Option.bind_eq_some_iff] at h
+      obtain ⟨p, hp, hl⟩ := h
+      rw [hf]
+      simp only [pySum, ihT ts p hp, Option.bind_some]
+      exact ihSL p.1 p.2 r hl
+    · intro acc ts r h
+      rw [hf]
+      unfold pySumLoop at h
+      split at h
+      · rename_i ts'
+        simp only [Option.bind_eq_some_iff] at h
+        obtain ⟨p, hp, hl⟩ := h
+        simp only [tsubst]
+        unfold pySumLoop
+        simp only [ihT ts' p hp, Option.bind_some]
+        simpa [sres, PE.bindEnv] using ihSL (.bin .add acc p.1) p.2 r hl
+      · rename_i ts'
+        simp only [Option.bind_eq_some_iff] at h
+        obtain ⟨p, hp, hl⟩ := h
+        simp only [tsubst]
+        unfold pySumLoop
+        simp only [ihT ts' p hp, Option.bind_some]
+        simpa [sres, PE.bindEnv] using ihSL (.bin .sub acc p.1) p.2 r hl
+      · rename_i h1 h2
+        simp only [Option.some.injEq] at h
+        subst h
+        unfold pySumLoop
+        split
+        · rename_i x hx
+          obtain ⟨ts', rfl, _⟩ := tsubst_head σ ts .plus (by simp) x hx
+          exact absurd rfl (h1 ts')
+        · rename_i x hx
+          obtain ⟨ts', rfl, _⟩ := tsubst_head σ ts .minus (by simp) x hx
+          exact absurd rfl (h2 ts')
+        · rfl
+    · intro ts r h
+      simp only [pyTerm, Option.bind_eq_some_iff] at h
+      obtain ⟨p, hp, hl⟩ := h
+      rw [hf]
+      simp only [pyTerm, ihF ts p hp, Option.bind_some]
+      exact ihTL p.1 p.2 r hl
+    · intro acc ts r h
+      rw [hf]
+      unfold pyTermLoop at h
+      split at h
+      · rename_i ts'
+        simp only [Option.bind_eq_some_iff] at h
+        obtain ⟨p, hp, hl⟩ := h
+        simp only [tsubst]
+        unfold pyTermLoop
+        simp only [ihF ts' p hp, Option.bind_some]
+        simpa [sres, PE.bindEnv] using ihTL (.bin .mul acc p.1) p.2 r hl
+      · rename_i ts'
+        simp only [Option.bind_eq_some_iff] at h
+        obtain ⟨p, hp, hl⟩ := h
+        simp only [tsubst]
+        unfold pyTermLoop
+        simp only [ihF ts' p hp, Option.bind_some]
+        simpa [sres, PE.bindEnv] using ihTL (.bin .div acc p.1) p.2 r hl
+      · rename_i h1 h2
+        simp only [Option.some.injEq] at h
+        subst h
+        unfold pyTermLoop
+        split
+        · rename_i x hx
+          obtain ⟨ts', rfl, _⟩ := tsubst_head σ ts .star (by simp) x hx
+          exact absurd rfl (h1 ts')
+        · rename_i x hx
+          obtain ⟨ts', rfl, _⟩ := tsubst_head σ ts .slash (by simp) x hx
+          exact absurd rfl (h2 ts')
+        · rfl
+    · intro ts r h
+      rw [hf]
       cases ts with
-      | nil => simp [pySumLoop]
-      | cons t ts' =>
-        cases t <;> try (simp [pySumLoop, tokBind]; done)
-        · -- name
-          rename_i s
-          cases hσ : σ s <;> simp [pySumLoop, tokBind, hσ]
-        · -- plus
-          simp only [List.map_cons, tokBind, pySumLoop, ihT]
-          cases pyTerm f ts' with
-          | none => rfl
-          | some p => simpa [PE.bindEnv] using ihSL (.bin .add acc p.1) p.2
-        · -- minus
-          simp only [List.map_cons, tokBind, pySumLoop, ihT]
-          cases pyTerm f ts' with
-          | none => rfl
-          | some p => simpa [PE.bindEnv] using ihSL (.bin .sub acc p.1) p.2
-    · intro ts
-      simp only [pyTerm, ihF]
-      cases pyFactor f ts with
-      | none => rfl
-      | some p => simp [ihTL]
-    · intro acc ts
-      cases ts with
-      | nil => simp [pyTermLoop]
-      | cons t ts' =>
-        cases t <;> try (simp [pyTermLoop, tokBind]; done)
-        · rename_i s
-          cases hσ : σ s <;> simp [pyTermLoop, tokBind, hσ]
-        · simp only [List.map_cons, tokBind, pyTermLoop, ihF]
-          cases pyFactor f ts' with
-          | none => rfl
-          | some p => simpa [PE.bindEnv] using ihTL (.bin .mul acc p.1) p.2
-        · simp only [List.map_cons, tokBind, pyTermLoop, ihF]
-          cases pyFactor f ts' with
-          | none => rfl
-          | some p => simpa [PE.bindEnv] using ihTL (.bin .div acc p.1) p.2
-    · intro ts
-      cases ts with
-      | nil => simpa [pyFactor] using ihP []
-      | cons t ts' =>
-        by_cases ht : t = .minus
-        · subst ht
-          simp only [List.map_cons, tokBind, pyFactor, ihF]
-          cases pyFactor f ts' with
-          | none => rfl
-          | some p => simp [PE.bindEnv]
-        · have ht' : tokBind σ t ≠ .minus := fun h => ht (tokBind_eq_minus σ t h)
-          rw [List.map_cons, pyFactor_succ_of_ne_minus f _ _ ht,
-            pyFactor_succ_of_ne_minus f _ _ ht']
-          exact ihP (t :: ts')
-    · intro ts
-      simp only [pyPower, ihA]
-      cases pyAtom f ts with
-      | none => rfl
-      | some p =>
-        obtain ⟨a, r⟩ := p
-        cases r with
-        | nil => simp
-        | cons t r' =>
-          cases t <;> try (simp [tokBind]; done)
-          · rename_i s
-            simp only [Option.map_some, Option.bind_some, List.map_cons, tokBind]
-            cases σ s <;> simp
-          · -- pow
-            simp only [Option.map_some, Option.bind_some, List.map_cons, tokBind, ihF]
-            cases pyFactor f r' with
-            | none => rfl
-            | some q => simp [PE.bindEnv]
-    · intro ts
-      cases ts with
-      | nil => simp [pyAtom]
+      | nil =>
+        have := ihP [] r (by simpa [pyFactor] using h)
+        simpa [pyFactor, tsubst] using this
       | cons t ts' =>
         cases t with
-        | lit s => simp [pyAtom, tokBind, PE.bindEnv]
-        | val v => simp [pyAtom, tokBind, PE.bindEnv]
+        | minus =>
+          simp only [pyFactor, Option.bind_eq_some_iff, Option.some.injEq] at h
+          obtain ⟨p, hp, rfl⟩ := h
+          simp only [tsubst]
+          rw [pyFactor_minus, ihF ts' p hp]
+          simp [sres, PE.bindEnv]
         | name s =>
-          simp only [List.map_cons, tokBind]
-          cases hσ : σ s <;> simp [pyAtom, PE.bindEnv, hσ]
+          have := ihP (.name s :: ts') r (by simpa [pyFactor] using h)
+          simp only [tsubst] at this ⊢
+          cases hs : σ s <;> simp only [hs] at this ⊢ <;> simpa [pyFactor] using this
+        | _ =>
+          have := ihP (_ :: ts') r (by simpa [pyFactor] using h)
+          simpa [pyFactor, tsubst] using this
+    · intro ts r h
+      simp only [pyPower, Option.bind_eq_some_iff] at h
+      obtain ⟨p, hp, hm⟩ := h
+      rw [hf]
+      simp only [pyPower, ihA ts p hp, Option.bind_some, sres]
+      obtain ⟨a, rest⟩ := p
+      cases rest with
+      | nil =>
+        simp only [Option.some.injEq] at hm; subst hm
+        simp [tsubst, sres]
+      | cons t rest' =>
+        cases t with
+        | pow =>
+          simp only [Option.bind_eq_some_iff, Option.some.injEq] at hm
+          obtain ⟨q, hq, rfl⟩ := hm
+          simp only [tsubst, ihF rest' q hq, Option.bind_some]
+          simp [sres, PE.bindEnv]
+        | name s =>
+          simp only [Option.some.injEq] at hm; subst hm
+          cases hs : σ s <;> simp [tsubst, sres, hs]
+        | _ =>
+          simp only [Option.some.injEq] at hm; subst hm
+          simp [tsubst, sres]
+    · intro ts r h
+      rw [hf]
+      cases ts with
+      | nil => simp [pyAtom] at h
+      | cons t ts' =>
+        cases t with
+        | lit s =>
+          simp only [pyAtom, Option.some.injEq] at h; subst h
+          simp [pyAtom, tsubst, sres, PE.bindEnv]
+        | val v =>
+          simp only [pyAtom, Option.some.injEq] at h; subst h
+          simp [pyAtom, tsubst, sres, PE.bindEnv]
+        | name s =>
+          simp only [pyAtom, Option.some.injEq] at h; subst h
+          cases hs : σ s with
+          | none => simp [pyAtom, tsubst, sres, PE.bindEnv, hs]
+          | some v =>
+            have hv := pySum_val (f + 1) v (tsubst σ ts')
+            simp only [tsubst, hs, pyAtom, show f + 6 = f + 1 + 5 by omega, hv, Option.bind_some]
+            simp [sres, PE.bindEnv, hs]
+        | lp =>
+          simp only [pyAtom, Option.bind_eq_some_iff] at h
+          obtain ⟨p, hp, hm⟩ := h
+          simp only [tsubst, pyAtom, ihS ts' p hp, Option.bind_some, sres]
+          obtain ⟨a, rest⟩ := p
+          cases rest with
+          | nil => simp at hm
+          | cons t2 rest' =>
+            cases t2 with
+            | rp =>
+              simp only [Option.some.injEq] at hm; subst hm
+              simp [tsubst]
+            | _ => simp at hm
         | fn g =>
           cases ts' with
-          | nil => simp [pyAtom, tokBind]
+          | nil => simp [pyAtom] at h
           | cons t2 ts'' =>
-            cases t2 <;> try (simp [pyAtom, tokBind]; done)
-            · rename_i s
-              simp only [List.map_cons, tokBind]
-              cases σ s <;> simp [pyAtom]
-            · -- fn ( ...
-              simp only [List.map_cons, tokBind, pyAtom, ihS]
-              cases pySum f ts'' with
-              | none => rfl
-              | some p =>
-                obtain ⟨a, r⟩ := p
-                cases r with
-                | nil => simp
-                | cons t r' =>
-                  cases t <;> try (simp [tokBind, PE.bindEnv]; done)
-                  · rename_i s
-                    simp only [Option.map_some, Option.bind_some, List.map_cons, tokBind]
-                    cases σ s <;> simp
-        | lp =>
-          simp only [List.map_cons, tokBind, pyAtom, ihS]
-          cases pySum f ts' with
-          | none => rfl
-          | some p =>
-            obtain ⟨a, r⟩ := p
-            cases r with
-            | nil => simp
-            | cons t r' =>
-              cases t <;> try (simp [tokBind]; done)
-              · rename_i s
-                simp only [Option.map_some, Option.bind_some, List.map_cons, tokBind]
-                cases σ s <;> simp
-        | rp => simp [pyAtom, tokBind]
-        | plus => simp [pyAtom, tokBind]
-        | minus => simp [pyAtom, tokBind]
-        | star => simp [pyAtom, tokBind]
-        | slash => simp [pyAtom, tokBind]
-        | pow => simp [pyAtom, tokBind]
+            cases t2 with
+            | lp =>
+              simp only [pyAtom, Option.bind_eq_some_iff] at h
+              obtain ⟨p, hp, hm⟩ := h
+              simp only [tsubst, pyAtom, ihS ts'' p hp, Option.bind_some, sres]
+              obtain ⟨a, rest⟩ := p
+              cases rest with
+              | nil => simp at hm
+              | cons t3 rest' =>
+                cases t3 with
+                | rp =>
+                  simp only [Option.some.injEq] at hm; subst hm
+                  simp [tsubst, PE.bindEnv]
+                | _ => simp at hm
+            | _ => simp [pyAtom] at h
+        | _ => simp [pyAtom] at h
 
-theorem pyParse_map (σ : Env V) (ts : List (ETok V)) :
-    pyParse (ts.map (tokBind σ)) = (pyParse ts).map (PE.bindEnv σ) := by
-  unfold pyParse
-  have h := (py_map σ (exprFuel ts)).1 ts
-  have hf : exprFuel (ts.map (tokBind σ)) = exprFuel ts := by simp [exprFuel]
-  rw [hf, h]
-  cases pySum (exprFuel ts) ts with
-  | none => rfl
-  | some p =>
-    obtain ⟨a, r⟩ := p
-    cases r <;> simp
+/-- **parsing the spliced text = binding the formals in the parse of the original text** -/
+theorem pyParse_tsubst (σ : Env V) (ts : List (ETok V)) (e : PE V)
+    (h : pyParse ts = some e) : pyParse (tsubst σ ts) = some (e.bindEnv σ) := by
+  unfold pyParse at h
+  split at h
+  · rename_i e' hq
+    simp only [Option.some.injEq] at h
+    subst h
+    have hs := (py_shift σ (exprFuel ts)).1 ts (e', []) hq
+    simp only [sres, tsubst] at hs
+    have hlen := tsubst_length_ge σ ts
+    by_cases hlt : ts.length < (tsubst σ ts).length
+    · -- the spliced text is longer: its own fuel is larger than what the shift needs
+      have hk : exprFuel (tsubst σ ts) = exprFuel ts + 6 + (exprFuel (tsubst σ ts) - (exprFuel ts + 6)) := by
+        simp only [exprFuel]; omega
+      unfold pyParse
+      rw [hk, pySum_mono _ _ _ _ hs]
+    · -- nothing was spliced: same text; the parse does not depend on the fuel
+      have heq : tsubst σ ts = ts := tsubst_eq_of_length σ ts (by omega)
+      rw [heq] at hs ⊢
+      have hm := pySum_mono (exprFuel ts) 6 ts _ hq
+      rw [hm] at hs
+      simp only [Option.some.injEq, Prod.mk.injEq, and_true] at hs
+      unfold pyParse
+      rw [hq, ← hs]
+  · simp at h
 
 /-! ### the reader's substitution -/
 
@@ -255,38 +458,36 @@ def QE.source : QE V → Bool
   | .call _ e => e.source
   | .bin _ l r => l.source && r.source
 
-theorem flatten_subst (A : Arith V) (ps : List String) (vs : List V)
-    (hnn : ∀ v ∈ vs, A.isNeg v = false) (q q' : QE V) (hsrc : q.source = true)
+theorem flatten_subst (ps : List String) (vs : List V) (q q' : QE V) (hsrc : q.source = true)
     (hs : substVals vs (bindIds ps q) = some q') :
-    flatten A q' = (flatten A q).map (tokBind (formalEnv ps vs)) := by
+    flatten q' = tsubst (formalEnv ps vs) (flatten q) := by
   induction q generalizing q' with
   | num s =>
     simp only [bindIds, substVals, Option.some.injEq] at hs
-    subst hs; simp [flatten, tokBind]
+    subst hs; simp [flatten, tsubst]
   | id s =>
     by_cases hc : ps.contains s = true
     · simp only [bindIds, hc, if_true, substVals, Option.map_eq_some_iff] at hs
       obtain ⟨v, hv, rfl⟩ := hs
-      have hmem : v ∈ vs := List.mem_of_getElem? hv
       have hc' : s ∈ ps := by simpa using hc
-      simp [flatten, valToks, hnn v hmem, tokBind, formalEnv, hv, hc']
+      simp [flatten, tsubst, formalEnv, hv, hc']
     · have hc2 : ps.contains s = false := by simpa using hc
       simp only [bindIds, hc2, Bool.false_eq_true, if_false, substVals, Option.some.injEq] at hs
       subst hs
       have hc' : ¬ s ∈ ps := by simpa using hc2
-      simp [flatten, tokBind, formalEnv, hc']
+      simp [flatten, tsubst, formalEnv, hc']
   | pidx i => simp [QE.source] at hsrc
   | val v => simp [QE.source] at hsrc
   | paren e ih =>
     simp only [QE.source] at hsrc
     simp only [bindIds, substVals, Option.map_eq_some_iff] at hs
     obtain ⟨e', he', rfl⟩ := hs
-    simp [flatten, ih e' hsrc he']
+    simp [flatten, ih e' hsrc he', tsubst, tsubst_append]
   | usub e ih =>
     simp only [QE.source] at hsrc
     simp only [bindIds, substVals, Option.map_eq_some_iff] at hs
     obtain ⟨e', he', rfl⟩ := hs
-    simp [flatten, ih e' hsrc he', tokBind]
+    simp [flatten, ih e' hsrc he', tsubst]
   | pow a b iha ihb =>
     simp only [QE.source, Bool.and_eq_true] at hsrc
     simp only [bindIds, substVals] at hs
@@ -294,13 +495,13 @@ theorem flatten_subst (A : Arith V) (ps : List String) (vs : List V)
     · rename_i x y hx hy
       simp only [Option.some.injEq] at hs
       subst hs
-      simp [flatten, iha x hsrc.1 hx, ihb y hsrc.2 hy, tokBind]
+      simp [flatten, iha x hsrc.1 hx, ihb y hsrc.2 hy, tsubst, tsubst_append]
     · simp at hs
   | call f e ih =>
     simp only [QE.source] at hsrc
     simp only [bindIds, substVals, Option.map_eq_some_iff] at hs
     obtain ⟨e', he', rfl⟩ := hs
-    simp [flatten, ih e' hsrc he', tokBind]
+    simp [flatten, ih e' hsrc he', tsubst, tsubst_append]
   | bin op l r ihl ihr =>
     simp only [QE.source, Bool.and_eq_true] at hsrc
     simp only [bindIds, substVals] at hs
@@ -308,19 +509,18 @@ theorem flatten_subst (A : Arith V) (ps : List String) (vs : List V)
     · rename_i x y hx hy
       simp only [Option.some.injEq] at hs
       subst hs
-      cases op <;> simp [flatten, ihl x hsrc.1 hx, ihr y hsrc.2 hy, tokBind, BOp.tok]
+      cases op <;>
+        simp [flatten, ihl x hsrc.1 hx, ihr y hsrc.2 hy, tsubst, tsubst_append, BOp.tok]
     · simp at hs
 
-/-- **textual substitution of values that print without a sign = binding the formals in the
-parse tree of the body expression** -/
-theorem evalQ_subst (A : Arith V) (ps : List String) (vs : List V)
-    (hnn : ∀ v ∈ vs, A.isNeg v = false) (q q' : QE V) (hsrc : q.source = true)
-    (hs : substVals vs (bindIds ps q) = some q') :
-    evalQ A q' = (pyParse (flatten A q)).bind (PE.evalEnv A (formalEnv ps vs)) := by
+/-- **the reader's textual substitution = binding the formals in the parse tree of the body
+expression**, for every value (signed or not) -/
+theorem evalQ_subst (A : Arith V) (ps : List String) (vs : List V) (q q' : QE V)
+    (hsrc : q.source = true) (hs : substVals vs (bindIds ps q) = some q') (e : PE V)
+    (he : pyParse (flatten q) = some e) :
+    evalQ A q' = e.evalEnvSpec A (formalEnv ps vs) := by
   unfold evalQ
-  rw [flatten_subst A ps vs hnn q q' hsrc hs, pyParse_map]
-  cases pyParse (flatten A q) with
-  | none => rfl
-  | some e => simp [eval_bindEnv]
+  rw [flatten_subst ps vs q q' hsrc hs, pyParse_tsubst _ _ e he]
+  simp [eval_bindEnv]
 
 end BqVerif.Qasm
